@@ -379,8 +379,17 @@ func (x *expectation) merge(t *gen.TD, pol string, old reflect.Value, s *gen.Tre
 		return out, nil
 
 	case "slice":
-		if s.K != "list" {
-			return invalid, &badSetting{fmt.Sprintf("%s: setting %s is not a list", path, showTree(s))}
+		plain := s.IsPrim()
+		switch {
+		case plain:
+			// "Primitive values will be handled like arrays of length 1" (documentation of Unpack): the value is
+			// merged with the old list exactly like the list [value], under the policy in force
+			s = gen.List(s)
+		case s.K != "list":
+			// an object given for a list: the library reads the (absent) list part of the object, i.e. a list without
+			// elements. Neither the statement nor the documentation say what it stands for: nothing is asserted
+			x.outside = true
+			return invalid, nil
 		}
 		n := len(s.Vals)
 		if n == 0 {
@@ -436,6 +445,27 @@ func (x *expectation) merge(t *gen.TD, pol string, old reflect.Value, s *gen.Tre
 				}
 			}
 			x.listMerges[name] = true
+			if plain {
+				x.listMerges["plain value for a pre-filled slice, "+name] = true
+			}
+		}
+		if plain {
+			switch {
+			case old.IsNil():
+				x.classes["plain value given for a list: nil slice"] = true
+			case ol == 0:
+				x.classes["plain value given for a list: empty non-nil slice"] = true
+			case ol == 1:
+				x.classes["plain value given for a list: pre-filled slice of 1 element"] = true
+			default:
+				x.classes["plain value given for a list: pre-filled slice of 2 or more elements"] = true
+			}
+			if strings.Contains(path, "[") || strings.Contains(path, "*") || strings.Contains(path, "(") {
+				x.classes["plain value given for a list below a pointer, map, list or interface{} place"] = true
+			}
+			if strings.Count(path, ".") > 1 {
+				x.classes["plain value given for a list field of a nested or inline struct"] = true
+			}
 		}
 		res := reflect.MakeSlice(typ, len(plan), len(plan))
 		for i, o := range plan {
@@ -469,7 +499,18 @@ func (x *expectation) merge(t *gen.TD, pol string, old reflect.Value, s *gen.Tre
 		return out, nil
 
 	case "array":
-		if s.K != "list" || len(s.Vals) != sh.N {
+		if s.IsPrim() {
+			// the plain spelling of the list of one element (it fits an array of one element only)
+			s = gen.List(s)
+			if sh.N == 1 {
+				x.classes["plain value given for an array of one element"] = true
+			}
+		}
+		if s.K == "obj" {
+			x.outside = true // an object given for a list: see the slice case
+			return invalid, nil
+		}
+		if len(s.Vals) != sh.N {
 			return invalid, &badSetting{fmt.Sprintf("%s: setting %s is not a list of %d elements", path, showTree(s), sh.N)}
 		}
 		for i := 0; i < sh.N; i++ {
